@@ -41,9 +41,15 @@ func (g *gen) value() int64 {
 	return 400 * U // more than anybody owns
 }
 
-func (g *gen) sendOp(self string) *Op {
+// static: a read-only context: ETX / CONVERT there are write-protection halts (see wpEnd); the lockup contract is
+// reachable (zero-value CALL) and must refuse
+func (g *gen) sendOp(self string, static bool) *Op {
 	o := &Op{Fee: "zero", Al: "empty", Gl: "ok"}
-	switch x := g.r.Intn(100); {
+	x := g.r.Intn(100)
+	if static {
+		x = 75 + g.r.Intn(25)
+	}
+	switch {
 	case x < 45:
 		o.A = "ETX"
 		o.Dest = g.pick("elig", "elig", "elig", "inelig", "inelig", "qiother", "inscope", "qiown")
@@ -94,8 +100,9 @@ func (g *gen) sendOp(self string) *Op {
 	return o
 }
 
-func (g *gen) script(host string, depth int, isInit bool) *Script {
-	s := &Script{host: host, isInit: isInit}
+// self: the executing address (the host, except below DELEGATECALL / CALLCODE); static: read-only context
+func (g *gen) script(host, self string, depth int, isInit, static bool) *Script {
+	s := &Script{host: host, self: self, isInit: isInit, static: static}
 	n := 0
 	if depth <= g.maxDepth {
 		n = g.r.Intn(g.maxOps + 1)
@@ -104,27 +111,62 @@ func (g *gen) script(host string, depth int, isInit bool) *Script {
 		switch x := g.r.Intn(100); {
 		case x < 45:
 			t := g.accts[g.r.Intn(len(g.accts))]
+			if g.r.Intn(3) == 0 {
+				t = g.pick("K1", "K2", "K3")
+			}
 			o := &Op{A: "call", Target: t, V: g.value()}
+			switch y := g.r.Intn(100); {
+			case y < 45:
+			case y < 63:
+				o.A, o.V = "dcall", 0
+			case y < 80:
+				o.A = "ccall"
+			default:
+				o.A, o.V = "scall", 0
+			}
+			if static && o.A == "call" {
+				o.V = 0 // (a CALL with value is a write: see wpEnd)
+			}
 			if g.hosts[t] {
-				o.Sub = g.script(t, depth+1, false)
+				switch o.A {
+				case "dcall", "ccall":
+					o.Sub = g.script(t, self, depth+1, false, static)
+				case "scall":
+					o.Sub = g.script(t, t, depth+1, false, true)
+				default:
+					o.Sub = g.script(t, t, depth+1, false, static)
+				}
 			}
 			s.ops = append(s.ops, o)
 		case x < 52:
-			if g.created || depth >= g.maxDepth {
+			if g.created || depth >= g.maxDepth || static {
 				continue
 			}
 			// CREATE hands 63/64 of the remaining gas to the init code: if that halts exceptionally the creator is
 			// starved, so the creation is the last operation of its frame and the frame ends cheaply
 			g.created = true
-			s.ops = append(s.ops, &Op{A: "create", V: g.value(), Sub: g.script("N", depth+1, true)})
+			s.ops = append(s.ops, &Op{A: g.pick("create", "create", "create2"), V: g.value(), Sub: g.script("N", "N", depth+1, true, false)})
 			s.ops = append(s.ops, &Op{A: g.pick("stop", "stop", "revert", "fail")})
 			return s
 		default:
-			s.ops = append(s.ops, g.sendOp(host))
+			o := g.sendOp(self, static)
+			s.ops = append(s.ops, o)
+			if o.A == "CLAIM" && g.r.Intn(3) == 0 {
+				// the same tranche claimed again: the record is gone (deleted through the block batch), the claim must fail
+				s.ops = append(s.ops, &Op{A: "CLAIM", Dest: "elig", Gl: "ok", Fee: "zero", Al: o.Al})
+			}
 		}
 	}
 	var end *Op
 	x := g.r.Intn(100)
+	if static && x >= 84 {
+		x = g.r.Intn(84) // no SELFDESTRUCT / CALL to a foreign zone in a read-only context, except as write-protection halts
+	}
+	if static && g.r.Intn(3) == 0 {
+		// a state-modifying instruction in a read-only context: exceptional halt (ErrWriteProtection)
+		s.ops = append(s.ops, &Op{A: "wp", WpOp: g.pick("call", "create", "create2", "sd", "ETX", "ETX", "CONVERT", "sstore", "log")})
+		return s
+	}
 	switch {
 	case isInit && x < 45:
 		end = &Op{A: "ret"}
@@ -185,7 +227,7 @@ func (g *gen) tx() *Tx {
 			tx.To = g.pick("K1", "K2", "K3")
 		}
 		if g.hosts[tx.To] {
-			tx.Body = g.script(tx.To, 1, false)
+			tx.Body = g.script(tx.To, tx.To, 1, false, false)
 		}
 	case x < 63:
 		if g.created {
@@ -194,7 +236,7 @@ func (g *gen) tx() *Tx {
 		g.created = true
 		tx.Kind = "create"
 		tx.To = "N"
-		tx.Body = g.script("N", 1, true)
+		tx.Body = g.script("N", "N", 1, true, false)
 	case x < 76:
 		tx.Kind = "inbound"
 		tx.Payer = "Z"
@@ -202,7 +244,7 @@ func (g *gen) tx() *Tx {
 		tx.To = g.pick("K1", "K2", "K3", "E1", "F", "Q")
 		tx.Glc = g.pick("ok", "ok", "ok", "ok", "toohigh")
 		if g.hosts[tx.To] {
-			tx.Body = g.script(tx.To, 1, false)
+			tx.Body = g.script(tx.To, tx.To, 1, false, false)
 		}
 	case x < 87:
 		tx.Kind = "xsend"
@@ -241,6 +283,7 @@ type scenario struct {
 	pre    *Pre
 	txs    []*Tx
 	noSalt bool
+	lockInBatch bool // lockup records staged in the block batch instead of committed in the database
 	events []*Step
 	herr   string
 }
@@ -263,7 +306,7 @@ func cmdRandom(args []string) {
 	for sc := 0; sc < *n; sc++ {
 		g := &gen{r: r, maxDepth: *depth, maxOps: *maxOps, minconv: *minconv,
 			accts: []string{"E1", "E2", "E3", "K1", "K2", "K3", "Z", "F", "Q"}, hosts: map[string]bool{"K1": true, "K2": true, "K3": true}}
-		s := &scenario{pre: g.pre(), noSalt: r.Intn(10) == 0}
+		s := &scenario{pre: g.pre(), noSalt: r.Intn(10) == 0, lockInBatch: r.Intn(4) == 0}
 		for t := 0; t < 1+r.Intn(*maxTx); t++ {
 			s.txs = append(s.txs, g.tx())
 		}
@@ -281,7 +324,7 @@ func cmdRandom(args []string) {
 					return
 				}
 				s := scs[i]
-				w := newWorld(s.pre)
+				w := newWorldOpt(s.pre, s.lockInBatch)
 				w.noSalt = s.noSalt
 				for t, tx := range s.txs {
 					events, err := w.runTx(tx)
@@ -300,6 +343,39 @@ func cmdRandom(args []string) {
 	bw := bufio.NewWriterSize(f, 1<<20)
 	enc := json.NewEncoder(bw)
 	stats := map[string]int{}
+	// what the generated programs contain (frames by kind and context, write-protected instructions)
+	var walk func(sc *Script, kind string)
+	walk = func(sc *Script, kind string) {
+		k := "prog:frame:" + kind
+		if sc.static {
+			k += ":static"
+		}
+		stats[k]++
+		for _, o := range sc.ops {
+			if o.A == "wp" {
+				stats["prog:wp:"+o.WpOp]++
+			}
+			if sendOps[o.A] && sc.static {
+				stats["prog:static:"+o.A]++
+			}
+			if sendOps[o.A] && sc.self != sc.host {
+				stats["prog:as-caller:"+o.A]++
+			}
+			if o.Sub != nil {
+				walk(o.Sub, o.A)
+			}
+		}
+	}
+	for _, s := range scs {
+		for _, tx := range s.txs {
+			if tx.Body != nil {
+				walk(tx.Body, "top")
+			}
+		}
+		if s.lockInBatch {
+			stats["prog:lockups-in-batch"]++
+		}
+	}
 	var harnessErrs []string
 	ntx, nev := 0, 0
 	for sc, s := range scs {
